@@ -9,7 +9,7 @@ CONSTANTS
   MaxRound = 3
   MaxSnaps = 8
   MaxEarly = 1
-  Late = {}
+  Late = {3}
   MaxPub = 1
   MaxAhead = 1
   Interleave = FALSE
@@ -19,11 +19,5 @@ CONSTANTS
   Eager = TRUE
   Track = FALSE
 VIEW View
-INVARIANT TypeOK
-INVARIANT RemoteClosed
-INVARIANT NeverDropped
-PROPERTY SinceSafe
-PROPERTY OffsetMin
-PROPERTY HeadSafe
-PROPERTY HeadCoversFrontier
+PROPERTY ReachLate
 CHECK_DEADLOCK FALSE
